@@ -163,6 +163,9 @@ def _line(it, k):
         return f'L{k}: {it[1]} ' + ', '.join(render(a) for a in it[2])
     if kind == 'str':
         d, q, raw = it[1], it[2], it[3]
+        if len(it) > 6 and it[6] == 'define':
+            # the string reaches the directive through a preprocessor symbol
+            return f'#define STR{k} {q}{raw}{q}\nL{k}: {d + " " if d else ""}STR{k}'
         return f'L{k}: {d + " " if d else ""}{q}{raw}{q}'
     if kind == 'fill':
         return f'L{k}: .fill {render(it[1])}, {render(it[2])}'
@@ -260,6 +263,11 @@ def shapes(tier, seed):
             out.append(make(f'str:{d}:{"dq" if q == chr(34) else "sq"}:{i}', [('str', d, q, raw, exp, termd)],
                             'big', {}, term=True))
         out.append(make(f'str:embedded:{i}', [('str', None, '"', raw, exp, True)], 'big', {}, embedded=True, term=True))
+    for i, (raw, exp) in enumerate(STRINGS + [('a\\\\nb', [97, 92, 110, 98]), ('\\\\x41', [92, 120, 52, 49])]):
+        if ';' in raw or raw == '' or (tier == 'quick' and i % 3 and len(raw) > 12):
+            continue
+        d, q = (('.cstr', '"'), ('.byte', "'"), ('.asciiz', '"'))[i % 3]
+        out.append(make(f'strdef:{d}:{i}', [('str', d, q, raw, exp, d != '.byte', 'define')], 'big', {}, term=True))
     for i, (raw, exp) in enumerate(STRINGS_DQ_ONLY):
         out.append(make(f'strdq:{i}', [('str', '.cstr', '"', raw, exp, True)], 'big', {}, term=True))
         out.append(make(f'strdq:emb:{i}', [('str', None, '"', raw, exp, True)], 'big', {}, embedded=True, term=True))
